@@ -553,6 +553,21 @@ def run_batches(spec_mod, check, tier, plan, workers=None, wall_cap=None,
                 if now - last > limit_for(c.job[0]):
                     c.killed = True
                     _kill_group(pid)
+            if len(info['confirmed_timeouts']) >= 2 and queue is not None \
+                    and not info.get('stopped_early'):
+                # two runs stall reproducibly: the verdict is in; every
+                # further stall would cost a minute of wall clock
+                info['stopped_early'] = True
+                for pid in live:
+                    _kill_group(pid)
+                for pid in list(live):
+                    try:
+                        os.waitpid(pid, 0)
+                    except OSError:
+                        pass
+                live.clear()
+                queue = []
+                break
             if wall_cap is not None and now - t0 > wall_cap:
                 info['timed_out'] = True
                 for pid in live:
